@@ -736,6 +736,34 @@ def unit_bounded_steps(tier=None, seed=0):
             d = np.diff(np.array(seg[col]))
             if not (np.all(d > 0) or np.all(d < 0)):
                 problems.append({"step": "smooth_height", "what": f"{col} not strictly monotonic in a segment (recorded curve)"})
+    # the smooth_height STEP (not only the smoother) on recorded data whose height columns are clean ramps with a few
+    # repeated values (a piezo that rests for three samples): weakly monotonic input must come out strictly monotonic
+    import warnings as _w
+    import nanite as _nanite
+    cur0 = IU._curve()
+    sg_ = np.array(cur0["segment"], dtype=bool)
+    data_ = {c: np.array(cur0[c], copy=True) for c in cur0.columns}
+    for col in ("height (measured)", "height (piezo)"):
+        for s_, (a_, b_) in ((~sg_, (6e-6, -1e-6)), (sg_, (-1e-6, 6e-6))):
+            n_ = int(s_.sum())
+            ramp_ = np.linspace(a_, b_, n_)
+            for k_ in (10, n_ // 3, n_ // 2, n_ - 20):
+                ramp_[k_:k_ + 3] = ramp_[k_]
+            data_[col][s_] = ramp_
+    cur = _nanite.Indentation(data=data_, metadata=dict(cur0.metadata))
+    try:
+        with _w.catch_warnings():
+            _w.simplefilter("ignore")
+            cur.apply_preprocessing(["compute_tip_position", "smooth_height"])
+        ne += 1
+        for col in ("height (measured)", "height (piezo)", "tip position"):
+            for seg in (cur.appr, cur.retr):
+                d = np.diff(np.array(seg[col]))
+                if not (np.all(d > 0) or np.all(d < 0)):
+                    problems.append({"step": "smooth_height", "what": f"{col} not strictly monotonic in a segment: clean "
+                                     f"ramp with four runs of three equal samples ({int((d == 0).sum())} ties left)"})
+    except Exception as exc:
+        problems.append({"step": "smooth_height", "what": f"ramp with repeated samples: raised {exc!r}"[:160]})
     res = UnitResult(unit="bounded.steps_on_curves")
     res.bounded.append(BoundedResult(
         bid="C07.bounded.steps_on_synthetic_and_recorded_curves", ok=not problems, evaluations=ne, distinct=ne,
